@@ -115,7 +115,9 @@ func (t *Term) Key() string {
 	case OConst:
 		b.WriteString(constKey(t.C, t.Typ))
 		if t.Typ != nil {
-			if n, ok := t.Typ.(*types.Named); ok {
+			// a constant of a named type carries the type's name (two enumerations both have a 1); a string is the
+			// same text under any of its types (metric names as a typed string)
+			if n, ok := t.Typ.(*types.Named); ok && !(t.C != nil && t.C.Kind() == constant.String) {
 				b.WriteString(":" + n.Obj().Name())
 			}
 		}
@@ -544,6 +546,15 @@ func Bin(op string, a, b *Term) *Term {
 			}
 		}
 	}
+	// strings.Split with a non-empty separator returns at least one element: its length is never 0
+	if op == "==" || op == "!=" {
+		for _, pr := range [][2]*Term{{a, b}, {b, a}} {
+			k, l := pr[0], pr[1]
+			if v, ok := intVal(k); ok && v == 0 && isLenTerm(l) && isSplitNonEmptySep(l.Args[0]) {
+				return &Term{Op: OConst, C: constant.MakeBool(op == "!="), Typ: types.Typ[types.Bool]}
+			}
+		}
+	}
 	// comparisons of two integer constants or two string constants fold
 	if tok, ok := cmpTok[op]; ok && a.Op == OConst && b.Op == OConst && a.C != nil && b.C != nil {
 		if (a.C.Kind() == constant.Int && b.C.Kind() == constant.Int) || (a.C.Kind() == constant.String && b.C.Kind() == constant.String) {
@@ -591,6 +602,19 @@ func Bin(op string, a, b *Term) *Term {
 }
 
 func isNumeric(t *Term) bool { return true }
+
+// isSplitNonEmptySep: strings.Split(x, sep) with a non-empty constant separator.
+func isSplitNonEmptySep(t *Term) bool {
+	if t.Op != OCall || len(t.Args) != 2 {
+		return false
+	}
+	fn, _ := t.Obj.(*types.Func)
+	if fn == nil || fn.Pkg() == nil || fn.Pkg().Path() != "strings" || fn.Name() != "Split" {
+		return false
+	}
+	sep := t.Args[1]
+	return sep.Op == OConst && sep.C != nil && sep.C.Kind() == constant.String && constant.StringVal(sep.C) != ""
+}
 
 // NotCond returns the negation of a boolean term, pushing it into comparisons.
 func NotCond(t *Term) *Term {
@@ -677,6 +701,10 @@ func Rebuild(t *Term, args []*Term) *Term {
 		if len(args) >= 1 {
 			return DynCall(args[0], args[1:], t.Pos)
 		}
+	case "invoke":
+		if m, ok := t.Obj.(*types.Func); ok {
+			return Invoke(m, args, t.Pos)
+		}
 	case "deref":
 		// the location a pointer parameter stands for, once the caller's &x is substituted, is x
 		if len(args) == 1 && args[0].Op == OAddr && len(args[0].Args) == 1 {
@@ -705,6 +733,36 @@ func Rebuild(t *Term, args []*Term) *Term {
 	nt.key = ""
 	nt.Args = args
 	return &nt
+}
+
+// Invoke is the call of interface method m on args[0]. When the concrete type of the receiver is known - a
+// helper taking an interface, expanded at a call that passes a T or *T - it is the static call of T's method.
+func Invoke(m *types.Func, args []*Term, pos token.Pos) *Term {
+	if len(args) >= 1 {
+		if rt := TermType(args[0]); rt != nil && !types.IsInterface(rt) {
+			if sel := types.NewMethodSet(rt).Lookup(m.Pkg(), m.Name()); sel != nil && len(sel.Index()) == 1 {
+				if fn, ok := sel.Obj().(*types.Func); ok {
+					nt := Call(fn, args...)
+					nt.Pos = pos
+					return nt
+				}
+			}
+		}
+	}
+	return &Term{Op: "invoke", Obj: m, Args: args, Pos: pos}
+}
+
+// TermType: the static type of the value a term stands for, where the term records it.
+func TermType(t *Term) types.Type {
+	if t.Typ != nil {
+		return t.Typ
+	}
+	if t.Op == OField {
+		if f, ok := t.Obj.(*types.Var); ok {
+			return f.Type()
+		}
+	}
+	return nil
 }
 
 // DynCall is a call through a function value; when the value is a method value (x.M) it is the static call of M
